@@ -812,6 +812,16 @@ def r14_file_values_win(idx, r):
     r4_flags(idx, r)
 
 
+def r_borrowed_r04_18(idx, r):
+    """clauses of C05/C16 the round trip of a reactor rests on: None sentinels per dtype (R05.2), bounded flag-bit remapping (R05.10), restoreBackup honours the keep-set (R16.3)"""
+    from ..report import Only
+    from .c05 import r2_sentinels, r10_bit_loop_and_decode_siblings
+    from .c16 import r3_keepset
+    r2_sentinels(idx, Only(r, ["sentinel:"]))
+    r10_bit_loop_and_decode_siblings(idx, Only(r, ["remapBits"]))
+    r3_keepset(idx, Only(r, ["Parameter.restoreBackup:keep-set"]))
+
+
 def run(idx, chk):
     chk.explanation = (
         "C04: Layout.writeToDB/_readLayout, _createLayout/_initComps/_compose, _packLocationsV3/_unpackLocationsV2, "
@@ -856,3 +866,5 @@ def run(idx, chk):
                  necessary="the reader is handed the cycle, node and label the caller named")
     chk.run_rule("R04.17", "mesh parameters are recomputed only when not loading; the stored density fraction is always applied; the xsType codec (R20.4)", lambda r: r17_loaded_state_not_recomputed(idx, r), floor=4,
                  necessary="every parameter of the loaded reactor equals the written one")
+    chk.run_rule("R04.18", "clauses of C05/C16 the round trip of a reactor rests on: None sentinels per dtype (R05.2), bounded flag-bit remapping (R05.10), restoreBackup honours ", lambda r: r_borrowed_r04_18(idx, r), floor=3,
+                 necessary="the loaded state equals the written one, None and flags included")
